@@ -409,6 +409,9 @@ func (m *refModel) expand(s string) string {
 			if v, ok := m.tx.get(key); ok {
 				return v
 			}
+			if isCaptureKey(strings.ToLower(key)) {
+				return "" // TX.0-9 exist, empty, from the start of the transaction
+			}
 			return inner // undocumented corner; generators do not reference missing keys
 		case "MATCHED_VAR":
 			return m.matchedVar
@@ -565,6 +568,14 @@ func (m *refModel) evalOne(r *Rule) []Triple {
 					continue
 				}
 				matched = append(matched, Triple{t.Var, e.K, v})
+				if r.Capture && r.Op == "rx" && !r.OpNeg {
+					// capture: TX.0-9 receive the matched texts of this evaluation; a group of the pattern that took no
+					// part in the match holds the empty text
+					sub := refRx("(?sm)" + m.expand(r.Arg)).FindStringSubmatch(v)
+					for i := 0; i < len(sub) && i <= 9; i++ {
+						m.tx.set(strconv.Itoa(i), sub[i])
+					}
+				}
 				m.matchedVar = v
 				if e.K != "" {
 					m.matchedVarName = t.Var + ":" + e.K
